@@ -4,6 +4,7 @@
 // case line: <id> <arch> <inst-name|#id> <opts-hex> <extra|-> <nops> <op>...
 #include <asmjit/core.h>
 #include <asmjit/x86.h>
+#include <asmjit/a64.h>
 #include "vcommon.h"
 #include <iostream>
 #include <sstream>
@@ -86,6 +87,27 @@ int main(int argc, char** argv) {
   bool use_logger = args.u64("log", 0) != 0;
   uint32_t format_flags = (uint32_t)args.u64("format-flags", 0);
   bool thrower = args.u64("throw", 0) != 0;
+
+  bool api_validate = args.u64("api-validate", 0) != 0;
+  if (args.u64("names", 0)) {
+    // name round trip over every instruction id of an architecture (and its alias spellings)
+    struct { Arch arch; const char* n; uint32_t count; } archs[] = {
+      { Arch::kX64, "x64", x86::Inst::_kIdCount }, { Arch::kX86, "x86", x86::Inst::_kIdCount }, { Arch::kAArch64, "a64", 0 } };
+    archs[2].count = a64::Inst::_kIdCount;
+    for (auto& A : archs) {
+      for (uint32_t id = 1; id < A.count; id++) {
+        for (int alias = 0; alias < 2; alias++) {
+          String s;
+          Error e = InstAPI::inst_id_to_string(A.arch, id, alias ? InstStringifyOptions::kAliases : InstStringifyOptions::kNone, s);
+          InstId back = e == Error::kOk ? InstAPI::string_to_inst_id(A.arch, s.data(), s.size()) : 0;
+          String s2;
+          if (back) InstAPI::inst_id_to_string(A.arch, back, alias ? InstStringifyOptions::kAliases : InstStringifyOptions::kNone, s2);
+          printf("{\"arch\":\"%s\",\"id\":%u,\"alias\":%d,\"err\":%u,\"name\":%s,\"back\":%u,\"back_name\":%s}\n", A.n, id, alias, unsigned(e), jstr(std::string(s.data(), s.size())).c_str(), unsigned(back), jstr(std::string(s2.data(), s2.size())).c_str());
+        }
+      }
+    }
+    return 0;
+  }
 
   Env envs[2];
   for (int i = 0; i < 2; i++) {
@@ -171,11 +193,19 @@ int main(int argc, char** argv) {
     }
 
     uint32_t opts = (uint32_t)strtoul(opts_s.c_str(), nullptr, 16);
+    Reg extra_reg;
     if (extra_s != "-") {
       std::vector<std::string> p = split(extra_s, ':');
-      a.set_extra_reg(Reg::from_type_and_id(reg_type_of(p[0]), (uint32_t)strtoul(p[1].c_str(), nullptr, 0)));
+      extra_reg = Reg::from_type_and_id(reg_type_of(p[0]), (uint32_t)strtoul(p[1].c_str(), nullptr, 0));
+      a.set_extra_reg(extra_reg);
     }
     a.set_inst_options(InstOptions(opts));
+    int verr = -1;
+    if (api_validate && !bad) {
+      BaseInst bi(inst_id, InstOptions(opts));
+      if (extra_s != "-") bi = BaseInst(inst_id, InstOptions(opts), extra_reg);
+      verr = int(InstAPI::validate(A, bi, ops, (size_t)nops, ValidationFlags::kNone));
+    }
 
     size_t off0 = a.offset();
     size_t labels0 = E.code.label_count();
@@ -204,6 +234,7 @@ int main(int argc, char** argv) {
     if (off1 > off0) out += hexstr(a.buffer_data() + off0, off1 - off0);
     out += "\"";
     if (off1 < off0) out += ",\"shrunk\":1";
+    if (api_validate) { char vb[64]; snprintf(vb, sizeof vb, ",\"v\":%d,\"iid\":%u", verr, unsigned(inst_id)); out += vb; }
     if (use_logger) { out += ",\"log\":"; out += jstr(std::string(E.logger.data(), E.logger.data_size())); }
     out += "}\n";
     if (out.size() > (1 << 20)) { fwrite(out.data(), 1, out.size(), stdout); out.clear(); }
